@@ -22,6 +22,10 @@ ASSUMPTIONS = ['contents matchers are matchers of unknown class; their truth per
 EXPLANATION += ' ' + c13b.EXPLANATION_PART2
 ASSUMPTIONS += list(c13b.ASSUMPTIONS_PART2)
 
+def gen_tables(ctx):
+    common.source_tie('C13')  # range_merge.py, transformers.py, intervals translated and proved equal to the models
+
+
 CMPS = [('==', 'CEq'), ('!=', 'CNe'), ('<', 'CLt'), ('<=', 'CLe'), ('>', 'CGt'), ('>=', 'CGe')]
 CONTENTS = ['a', 'b', 'ab', 'c', '']  # line contents (ids = index)
 REGEXES = ['a', 'b', '^$', 'c']  # contents matchers `contents matches R`  (unknown class k = index)
